@@ -280,6 +280,9 @@ def fam_num(tier, rng):
         full = bytes(range(0x81, 0x81 + w))
         for j in range(w + 1):
             ops.append(f"num {ty} {hx(full[:j])}")
+        # the value followed by 0..20 more bytes: value, width consumed, remainder
+        for k in range(0, 21):
+            ops.append(f"num {ty} {hx(full + bytes(range(1, k + 1)))}")
     for l in range(0, 6):
         b = bytes(range(1, l + 1))
         for k in range(0, 8):
@@ -620,6 +623,13 @@ def fam_redb(tier, rng):
             p = rng.randrange(36)
             b[p] = (b[p] + 1) % 256
         pairs.append((bytes(a), bytes(b)))
+    # keys that differ in exactly one byte, at every one of the 36 positions, both directions
+    for i in range(36):
+        for delta in (1, 0x80):
+            c = bytearray(base)
+            c[i] = (c[i] + delta) % 256
+            pairs.append((base, bytes(c)))
+            pairs.append((bytes(c), base))
     for a, b in pairs:
         ops.append(f"cmp {hx(a)} {hx(b)}")
     return ops
